@@ -1118,7 +1118,14 @@ impl<'a> InputIndexer for Utf16Input<'a> {
             return false;
         };
 
-        let new_range = &self.input[self.pos_to_offset(start)..self.pos_to_offset(end)];
+        // The compared window must cover whole characters. A captured lone surrogate equals, unit for
+        // unit, one half of a surrogate pair; accepting that would leave the cursor inside the pair.
+        let (start_off, end_off) = (self.pos_to_offset(start), self.pos_to_offset(end));
+        if self.floor_char_boundary(start_off) != start_off || self.floor_char_boundary(end_off) != end_off {
+            return false;
+        }
+
+        let new_range = &self.input[start_off..end_off];
         let old_range = &self.input[self.pos_to_offset(range.start)..self.pos_to_offset(range.end)];
 
         new_range == old_range
